@@ -145,6 +145,9 @@ func init() {
 					c.Policy.Kind = "pct"
 					c.Policy.Depth = 2
 				}
+				if c.Policy.Kind == "holdat" {
+					c.Policy.WindowUS = 0 // held only until nothing else can run: no time passes meanwhile
+				}
 			}
 			return c
 		},
